@@ -250,6 +250,9 @@ func (s *Sim) FallbackLeader(root, round uint64) int {
 }
 
 // BlockID numbers (blockHash, resultsHash) pairs in order of first appearance.
+// EnvMark returns the id of the last envelope queued so far (later ones have larger ids).
+func (s *Sim) EnvMark() int { return s.nextEnv }
+
 func (s *Sim) BlockID(blockHash, resultsHash []byte) int {
 	k := string(blockHash) + "|" + string(resultsHash)
 	if id, ok := s.blocks[k]; ok {
